@@ -158,6 +158,25 @@ class Driver:
   def ask(self, req):
     return self.ask_many([req])[0]
 
+  def ask_parallel(self, reqs, procs=None):
+    """Like ask_many, but spread over several driver processes (for expensive requests)."""
+    procs = procs or int(os.environ.get('VERIF_PROCS', '16'))
+    if len(reqs) < 2 * procs:
+      chunks = [[r] for r in reqs]
+    else:
+      k = (len(reqs) + procs * 4 - 1) // (procs * 4)
+      chunks = [reqs[i:i + k] for i in range(0, len(reqs), k)]
+    outs = pmap(_ask_chunk, chunks, procs=procs, chunksize=1)
+    return [x for c in outs for x in c]
+
+
+def _ask_chunk(chunk):
+  return Driver().ask_many(chunk)
+
+
+class _Unused:
+  pass
+
 
 # ----------------------------------------------------------------------------------------------
 # One check run
